@@ -89,6 +89,10 @@ pub struct Style {
     /// document-wide prefix): `<e5:error-type xmlns:e5="..." xmlns="urn:example:unused">`. The
     /// declaration ends with the element; it changes nothing for any other element.
     pub unused_decl: Vec<usize>,
+    /// sites whose token text is padded with white space that includes CR and TAB (CRLF line ends)
+    pub pad_token_cr: Vec<usize>,
+    /// sites whose attribute values have their first character written as a character reference
+    pub charref_attrs: Vec<usize>,
 }
 
 struct W<'a> {
@@ -182,7 +186,16 @@ impl W<'_> {
             self.out.push(q);
             let e = escape_attr(v);
             // only the quote in use needs escaping; write the other one literally
-            let e = if q == '"' { e.replace("&apos;", "'") } else { e.replace("&quot;", "\"") };
+            let mut e = if q == '"' { e.replace("&apos;", "'") } else { e.replace("&quot;", "\"") };
+            if self.st.charref_attrs.contains(&site) && !k.starts_with("xmlns") {
+                // the first character as a (decimal or hexadecimal) character reference
+                if let Some(c) = v.chars().next() {
+                    if !matches!(c, '&' | '<' | '>' | '"' | '\'') {
+                        let rest = &e[c.len_utf8()..];
+                        e = if (c as u32) % 2 == 0 { format!("&#{};{rest}", c as u32) } else { format!("&#x{:x};{rest}", c as u32) };
+                    }
+                }
+            }
             self.out.push_str(&e);
             self.out.push(q);
         }
@@ -202,7 +215,14 @@ impl W<'_> {
                 if pad {
                     self.out.push_str("\n   ");
                 }
+                let pad_cr = n.token && self.st.pad_token_cr.contains(&site);
+                if pad_cr {
+                    self.out.push_str("\r\n\t  ");
+                }
                 self.out.push_str(&escape_text(t));
+                if pad_cr {
+                    self.out.push_str("\t\r\n\r");
+                }
                 if pad {
                     self.out.push_str("  \n");
                 }
